@@ -189,6 +189,7 @@ def _prune_failures(res):
 
 def _finish(res, t0):
     res.bounds["failure_signatures"] = _prune_failures(res)
+    res.notes = list(dict.fromkeys(res.notes))
     res.bounds["skipped_cases_or_points"] = dict(res.skip_counter.most_common(12))
     res.bounds["failures_total_before_per_signature_cap"] = res.fail_total
     res.bounds["failures_kept_per_signature"] = MAX_FAIL_PER_SIGNATURE
@@ -565,4 +566,8 @@ if __name__ == "__main__":
     tier = sys.argv[2] if len(sys.argv) > 2 else "quick"
     res = run(prop, tier, 0)
     print(json.dumps(res.to_json()))
+    for f in res.failures:
+        case = f["case"]
+        case = case.get("expr") or case.get("op") or case.get("rule") if isinstance(case, dict) else case
+        print("FAIL %s | %s | %s | tags=%s" % (f["contract"], str(case)[:300], f["detail"][:240], [t for t in f["tags"] if "-" in t]))
     _summarise(res)
